@@ -1,8 +1,187 @@
 import Lean.Data.Json
-/- stub: the C19 driver is not built yet -/
-namespace Glom.C19.Driver
-open Lean
+import Glom.Spec.C19
+import Glom.Model.C19Env
+/-
+  C19 driver: one JSON case in, one JSON verdict out.
 
-def run (_j : Json) : Except String Json := .error "property C19: driver not implemented yet"
+  case:
+    "argv":  {"posargs":[…],"target_file":s|null,"target_format":s|null,"spec_file":s|null,
+              "spec_format":s|null,"indent":n|null,"scalar":b}
+    "files": [[path, content|null]…]     (null = unreadable / missing)
+    "stdin": text, "tty": bool, "hostile": bool
+    "ext":   the trusted externals as tables computed by the harness with the real functions
+             (values are opaque ids):
+       "parse":[[kind,text,{"ok":id}|{"err":cls}]…]  "load":[[kind,text,{"ok":id}|{"err":cls}]…]
+       "repr":[[text,repr]…]  "strspec":[[text,id]…]  "empty_spec":id  "empty_target":id
+       "glom":[[tid,sid,{"ok":rid}|{"glomerror":[cls,msg]}|{"other":cls}]…]
+       "dumps":[[rid,indent|null,{"ok":text}|{"err":cls}]…]  "scalar":[[rid,isScalar,str]…]
+    "impl":  {"outcome":{"exit":[code,stdout]}|{"usage":true}|{"exc":cls},"side_effect":b}
+  A lookup that misses its table yields the class "<no-oracle>".
+-/
+namespace Glom.C19.Driver
+open Lean Glom Glom.C19
+
+def arr (j : Json) : Except String (List Json) :=
+  match j with
+  | .arr a => .ok a.toList
+  | _ => .error s!"expected array, got {j.compress}"
+
+def optStr (j : Json) (k : String) : Option String :=
+  match j.getObjVal? k with
+  | .ok (.str s) => some s
+  | _ => none
+
+def resOfJson (j : Json) : Except String Nat :=
+  if let .ok n := j.getObjValAs? Nat "ok" then .ok n
+  else if let .ok c := j.getObjValAs? String "err" then .error c
+  else .error "<bad-oracle>"
+
+structure Tables where
+  parse : List (String × String × Except String Nat)
+  load : List (String × String × Except String Nat)
+  repr : List (String × String)
+  strspec : List (String × Nat)
+  emptySpec : Nat
+  emptyTarget : Nat
+  glom : List (Nat × Nat × LibRes Nat)
+  dumps : List (Nat × Option Int × Except String String)
+  scalar : List (Nat × Bool × String)
+  files : List (String × Option String)
+
+def triple (j : Json) : Except String (Json × Json × Json) := do
+  match ← arr j with
+  | [a, b, c] => return (a, b, c)
+  | _ => throw s!"expected triple, got {j.compress}"
+
+def tablesOfJson (e files : Json) : Except String Tables := do
+  let kts := fun (k : String) => do
+    (← arr (← e.getObjVal? k)).mapM (fun row => do
+      let (a, b, c) ← triple row
+      return (← a.getStr?, ← b.getStr?, resOfJson c))
+  let parse ← kts "parse"
+  let load ← kts "load"
+  let repr ← (← arr (← e.getObjVal? "repr")).mapM (fun row => do
+    match ← arr row with
+    | [a, b] => return (← a.getStr?, ← b.getStr?)
+    | _ => throw "bad repr row")
+  let strspec ← (← arr (← e.getObjVal? "strspec")).mapM (fun row => do
+    match ← arr row with
+    | [a, b] => return (← a.getStr?, ← b.getNat?)
+    | _ => throw "bad strspec row")
+  let glom ← (← arr (← e.getObjVal? "glom")).mapM (fun row => do
+    let (a, b, c) ← triple row
+    let r : LibRes Nat ←
+      (if let .ok n := c.getObjValAs? Nat "ok" then pure (.ok n)
+       else if let .ok g := c.getObjVal? "glomerror" then do
+         match ← arr g with
+         | [cls, msg] => pure (.glomError (← cls.getStr?) (← msg.getStr?))
+         | _ => throw "bad glomerror"
+       else if let .ok o := c.getObjValAs? String "other" then pure (.other o)
+       else throw "bad glom row")
+    return (← a.getNat?, ← b.getNat?, r))
+  let dumps ← (← arr (← e.getObjVal? "dumps")).mapM (fun row => do
+    let (a, b, c) ← triple row
+    let ind : Option Int ← (match b with | .null => pure none | x => do return some (← x.getInt?))
+    let r : Except String String :=
+      if let .ok s := c.getObjValAs? String "ok" then .ok s
+      else if let .ok s := c.getObjValAs? String "err" then .error s else .error "<bad-oracle>"
+    return (← a.getNat?, ind, r))
+  let scalar ← (← arr (← e.getObjVal? "scalar")).mapM (fun row => do
+    let (a, b, c) ← triple row
+    return (← a.getNat?, ← b.getBool?, ← c.getStr?))
+  let fl ← (← arr files).mapM (fun row => do
+    match ← arr row with
+    | [p, .null] => return (← p.getStr?, none)
+    | [p, c] => return (← p.getStr?, some (← c.getStr?))
+    | _ => throw "bad files row")
+  return { parse := parse, load := load, repr := repr, strspec := strspec,
+           emptySpec := ← e.getObjValAs? Nat "empty_spec", emptyTarget := ← e.getObjValAs? Nat "empty_target",
+           glom := glom, dumps := dumps, scalar := scalar, files := fl }
+
+def lookup3 (t : List (String × String × Except String Nat)) (k x : String) : Except String Nat :=
+  match t.find? (fun r => r.1 == k && r.2.1 == x) with
+  | some r => r.2.2
+  | none => .error "<no-oracle>"
+
+/-- the externals, as table lookups -/
+def extOf (t : Tables) : Ext Nat Nat Nat :=
+  { parse := lookup3 t.parse
+    load := lookup3 t.load
+    strSpec := fun s => match t.strspec.find? (·.1 == s) with | some r => r.2 | none => 999999
+    repr := fun s => match t.repr.find? (·.1 == s) with | some r => r.2 | none => "<no-oracle>"
+    emptySpec := t.emptySpec
+    emptyTarget := t.emptyTarget
+    glom := fun a b => match t.glom.find? (fun r => r.1 == a && r.2.1 == b) with
+      | some r => r.2.2 | none => .other "<no-oracle>"
+    dumps := fun r i => match t.dumps.find? (fun x => x.1 == r && x.2.1 == i) with
+      | some x => x.2.2 | none => .error "<no-oracle>"
+    isScalar := fun r => match t.scalar.find? (·.1 == r) with | some x => x.2.1 | none => false
+    str := fun r => match t.scalar.find? (·.1 == r) with | some x => x.2.2 | none => "<no-oracle>"
+    readFile := fun p => match t.files.find? (·.1 == p) with | some x => x.2 | none => none }
+
+def argvOfJson (j : Json) : Except String Argv := do
+  let pos ← (← arr (← j.getObjVal? "posargs")).mapM (fun x => x.getStr?)
+  let ind : Option Int := match j.getObjVal? "indent" with
+    | .ok (.num n) => if n.exponent == 0 then some n.mantissa else none
+    | _ => none
+  return { posargs := pos, targetFile := optStr j "target_file", targetFormat := optStr j "target_format",
+           specFile := optStr j "spec_file", specFormat := optStr j "spec_format", indent := ind,
+           scalar := (j.getObjValAs? Bool "scalar").toOption.getD false }
+
+def outcomeOfJson (j : Json) : Except String Outcome := do
+  if let .ok e := j.getObjVal? "exit" then
+    match ← arr e with
+    | [c, s] => return .exit (← c.getNat?) (← s.getStr?)
+    | _ => throw "bad exit"
+  else if let .ok _ := j.getObjVal? "usage" then return .usage .specBoth
+  else if let .ok c := j.getObjValAs? String "exc" then return .exc c
+  else throw s!"bad outcome {j.compress}"
+
+/-- what is compared: a GlomError exit by class name only, a usage error without its kind -/
+def canon (o : Outcome) : Outcome :=
+  match o with
+  | .exit 1 out => .exit 1 (String.ofList (out.toList.takeWhile (· != ':')))
+  | .usage _ => .usage .specBoth
+  | o => o
+
+def outcomeToJson : Outcome → Json
+  | .exit c s => Json.mkObj [("exit", Json.arr #[c, s])]
+  | .usage u => Json.mkObj [("usage", (reprStr u : String))]
+  | .exc c => Json.mkObj [("exc", c)]
+
+def expectTag : Expect → String
+  | .result _ => "result" | .glomError c => s!"glomerror-{c}" | .targetUsage => "target-usage"
+  | .noResult => "malformed-spec" | .silent => "silent"
+
+def run (j : Json) : Except String Json := do
+  let a ← argvOfJson (← j.getObjVal? "argv")
+  let t ← tablesOfJson (← j.getObjVal? "ext") (← j.getObjVal? "files")
+  let w : World := ⟨← j.getObjValAs? String "stdin", ← j.getObjValAs? Bool "tty"⟩
+  let hostile := (j.getObjValAs? Bool "hostile").toOption.getD false
+  let impl ← j.getObjVal? "impl"
+  if let .ok true := impl.getObjValAs? Bool "clierror" then
+    return Json.mkObj [("skip", true), ("why", "face rejected the command line (outside the model)")]
+  let implOut ← outcomeOfJson (← impl.getObjVal? "outcome")
+  let side ← impl.getObjValAs? Bool "side_effect"
+  let X := extOf t
+  let F := genFacts
+  let m := cliMain F X a w
+  let ex := expect X a w
+  let holds := checkC19 X a w hostile ⟨implOut, side⟩
+  let modelHolds := checkC19 X a w hostile (observe m)
+  let agree := canon m == canon implOut && !side
+  let src := (if a.specFile.isSome then "spec:file" else "spec:argv") ++ "," ++
+    (match a.posargs, a.targetFile with
+     | [_, "-"], _ => "target:dash"
+     | [_, _], none => "target:argv"
+     | _, some "-" => "target:dashfile"
+     | _, some _ => "target:file"
+     | _, none => if w.stdinTty then "target:none" else "target:piped")
+  return Json.mkObj [("agree", agree), ("holds", holds), ("model_holds", modelHolds), ("wf", WF F),
+    ("model", outcomeToJson m),
+    ("branch", ((if hostile then "hostile/" else "") ++ expectTag ex ++ "/" ++
+      (match canon m with | .exit c _ => s!"exit{c}" | .usage _ => "usage" | .exc c => s!"exc-{c}") ++
+      (if ex == .silent then "" else "/" ++ src) : String)),
+    ("why", (if agree then "" else "model outcome differs from the implementation's" : String))]
 
 end Glom.C19.Driver
